@@ -503,7 +503,7 @@ package module
 //@ axiom pseudo_version_pattern(v string)
 //@   ensures pseudoVersionRE.MatchString(v) == REPV(v)
 //@   trigger pseudoVersionRE.MatchString(v)
-//@   reason "library behaviour: the regexp engine applied to the pattern of pseudoVersionRE, transcribed position by position as REPV (compared with the real regexp on generated strings by govc validate-externs)"
+//@   reason "library behaviour: the regexp engine applied to the pattern of pseudoVersionRE, transcribed position by position as REPV (a Go twin of REPV agrees with the real regexp on 600000 generated strings: /verif/tools/repvchk)"
 
 //@ spec func PSEUDO(v string) bool = strings.Count(v, "-") >= 2 && VALID(v) && REPV(v)
 
@@ -596,7 +596,7 @@ package module
 //@   ensures PC(v[:PQ(v)-1]) == PC(v) && PB(v[:PQ(v)-1]) == PB(v) && PA(v[:PQ(v)-1]) == PA(v)
 //@   ensures 1 < PA(v) && PA(v) + 1 < PB(v) && PB(v) + 1 < PC(v) && PC(v) + 2 <= PQ(v) - 1 && v[PB(v)] == '.' && v[PC(v)] == '-' && alldig(v, PB(v) + 1, PC(v))
 //@   ensures v[PQ(v)-2] == '0' && (PQ(v) - 3 == PC(v) || v[PQ(v)-3] == '.')
-//@   uses pv_split valid_cut bld_tail_pre bld_tail firstplus_bounds digend_bounds pos_major pos_minor pos_patch
+//@   uses pv_split valid_cut valid_cut_pre bld_tail_pre bld_tail firstplus_bounds digend_bounds pos_major pos_minor pos_patch
 //@   hint PA(v)
 //@   hint PB(v)
 //@   hint PC(v)
@@ -614,4 +614,30 @@ package module
 //@   uses pv_split pv_base1 pv_base2
 //@   hint v[:PC(v)][PB(v)]
 //@   hint v[:PQ(v)-1]
+//@   props C18
+
+//@ # ---------- generating a pseudo-version ----------
+//@ # a canonical version without prerelease ends with its patch number, which follows its last dot
+//@ lemma canon_release(v string)
+//@   requires VALID(v) && len(v) <= 4611686018427387904 && semver.Prerelease(semver.Canonical(v)) == ""
+//@   ensures PC(semver.Canonical(v)) == len(semver.Canonical(v))
+//@   ensures strings.LastIndex(semver.Canonical(v), ".") == PB(semver.Canonical(v))
+//@   ensures DIGITS(semver.Canonical(v)[PB(semver.Canonical(v))+1:])
+//@   uses canon_valid canon_shape lastindex_byte lastb_found pos_major pos_minor pos_patch firstplus_bounds alldig_sub
+//@   hint PC(semver.Canonical(v))
+//@   hint lastb(semver.Canonical(v), '.', len(semver.Canonical(v)))
+//@   hint firstplus(R3(semver.Canonical(v)), 1)
+//@   hint semver.Canonical(v)[PB(semver.Canonical(v))]
+//@   trigger VALID(v), strings.LastIndex(semver.Canonical(v), ".")
+//@   props C18
+
+//@ func PseudoVersion
+//@   ensures [C18] no_base_form: semver.Canonical(old(older)) == "" ==>
+//@       result == (if old(major) == "" then "v0" else old(major)) + ".0.0-" + (t.UTC().Format("20060102150405") + "-" + rev)
+//@   ensures [C18] prerelease_base_form: semver.Canonical(old(older)) != "" && semver.Prerelease(semver.Canonical(old(older))) != "" ==>
+//@       result == semver.Canonical(old(older)) + ".0." + (t.UTC().Format("20060102150405") + "-" + rev) + semver.Build(old(older))
+//@   ensures [C18] release_base_form: semver.Canonical(old(older)) != "" && semver.Prerelease(semver.Canonical(old(older))) == "" ==>
+//@       result == semver.Canonical(old(older))[:PB(semver.Canonical(old(older)))+1] + incDecimal(semver.Canonical(old(older))[PB(semver.Canonical(old(older)))+1:])
+//@                 + "-0." + (t.UTC().Format("20060102150405") + "-" + rev) + semver.Build(old(older))
+//@   uses sprintf_s_dash_s canon_valid canon_shape canon_release
 //@   props C18
